@@ -359,7 +359,78 @@ def probes_leave_configuration(op: int, status: int, probe1: int, probe2: int, e
     return len(sent) == 2 and failed == (probe2 != 401)
 
 
+
+# ---------------------------------------------------------------------------------------------------------------
+# examples phase: a user override wins over a schema example of the same location
+
+from schemathesis.specs.openapi import examples as _ex
+
+
+def _ex_op(ex_q: bool, ex_h: bool):
+    q = {"name": "q", "in": "query", "required": True, "schema": {"type": "string"}}
+    h = {"name": "X-Key", "in": "header", "schema": {"type": "string"}}
+    if ex_q:
+        q["example"] = "EXQ"
+    if ex_h:
+        h["example"] = "EXH"
+    raw = {"openapi": "3.0.2", "info": {"title": "t", "version": "1"}, "paths": {"/e": {"get": dict(_OK, parameters=[q, h])}}}
+    op = schemathesis.openapi.from_dict(raw)["/e"]["GET"]
+    list(op.iter_parameters())
+    return op
+
+
+EX_OPS = {(a, b): _ex_op(a, b) for a in (False, True) for b in (False, True)}
+
+
+class _Cases:
+    calls: list = []
+
+    def map(self, f):
+        return self
+
+
+def _openapi_cases(**kwargs):
+    _Cases.calls.append(kwargs)
+    return _Cases()
+
+
+def examples_respect_overrides(ex_q: bool, ex_h: bool, set_q: bool, set_h: bool) -> bool:
+    """
+    post: _
+    """
+    operation = EX_OPS[(bool(ex_q), bool(ex_h))]
+    kwargs = {}
+    if set_q:
+        kwargs["query"] = {"q": "USER"}
+    if set_h:
+        kwargs["headers"] = {"X-Key": "USER"}
+    _Cases.calls = []
+    saved = _ex.openapi_cases
+    _ex.openapi_cases = _openapi_cases
+    try:
+        strategies = _ex.get_strategies_from_examples(operation, **kwargs)
+    finally:
+        _ex.openapi_cases = saved
+    if len(strategies) != len(_Cases.calls) or bool(_Cases.calls) != (ex_q or ex_h):
+        return False
+    for call in _Cases.calls:
+        # the user's value wins over the example of the same name; where the user configured nothing the example is sent unchanged
+        if set_q and call.get("query") != {"q": "USER"}:
+            return False
+        if not set_q and ex_q and call.get("query") != {"q": "EXQ"}:
+            return False
+        if set_h and call.get("headers") != {"X-Key": "USER"}:
+            return False
+        if not set_h and ex_h and call.get("headers") != {"X-Key": "EXH"}:
+            return False
+    return True
+
+
 OBLIGATIONS = [
+    Ob(fn="examples_respect_overrides", props=["C14", "C17"], clause="in the examples phase a user override wins over a schema example of the same location; without an override the example is sent unchanged",
+       timeout=200, functions=["schemathesis.specs.openapi.examples.get_strategies_from_examples", "schemathesis.specs.openapi.examples.extract_top_level", "schemathesis.specs.openapi.examples.produce_combinations"],
+       symbolic="whether the query / header parameter carries an example, whether the user overrides the query / headers", bounds="2^4 combinations on one operation shape",
+       stubs=["openapi_cases replaced by a recorder of its keyword arguments"]),
     Ob(fn="probes_leave_configuration", props=["C14"], clause="the probes that deliberately strip credentials strip them from their own requests only: the user's configured headers (from which every later request is built) are unchanged afterwards, other configured headers still travel with the probes",
        timeout=300, functions=["schemathesis.specs.openapi.checks.ignored_auth", "schemathesis.specs.openapi.checks.remove_auth", "schemathesis.specs.openapi.checks._remove_auth_from_explicit_headers",
                                "schemathesis.specs.openapi.checks._contains_auth", "schemathesis.specs.openapi.checks._set_auth_for_case"],
